@@ -50,6 +50,18 @@ def table_inputs():
         for tail in ("{{p}}", "&amp;", "<!--c-->", "{{{1}}}", "[[x]]", "''i''", "<b>y</b>"):
             out += ["[%sexample.com/%s title]" % (sch, tail), "[%sexample.com/%s]" % (sch, tail), "[%sexample.com/ %s t]" % (sch, tail),
                     "%sexample.com/%s x" % (sch, tail), "[%s%s title]" % (sch, tail)]
+    # a construct of every kind exactly around the depth limit, under every kind of opener
+    pairs = [("<b>", "</b>"), ("{{a|", "}}"), ("[[a|", "]]"), ("{{{a|", "}}}"), ("''", "''"), ("<i>", ""), ("{", "}"), ("{{", "")]
+    inner = ["\n==h==\n", "[[a]]", "{{a}}", "<i>x</i>", "''x''", "[http://a b]", "&amp;", "\n{|\n|a\n|}\n", "\n* x\n", "== t ==\nrest", "<br>", "<!--c-->"]
+    for o, cl in pairs:
+        for dd in (96, 97, 98, 99, 100, 101):
+            for k, inn in enumerate(inner):
+                if (dd + k) % 2 == 0 or o == "<b>":
+                    out.append(o * dd + inn + cl * dd)
+    # many table cells (each cell end must give its depth back), then nested markup
+    rows = "".join("|-\n" + "| r%dc0 || r%dc1 || r%dc2 || r%dc3 || r%dc4 || r%dc5 || r%dc6 || r%dc7 || r%dc8 || r%dc9\n" % ((r,) * 10) for r in range(12))
+    out += ["{|\n" + rows + "|}\n{{done|{{yes|[[link]]}}}}", "{|\n" + rows.replace("| r", "| style=x | r") + "|}\n{{done|{{yes|[[link]]}}}}<b>''x''</b>"]
+    out += ["&#x100000041;", "&#4294967361;", "&#x100000000041;", "&#x0100000041;", "&#04294967361;", "a&#xFFFFFFFF;b", "&#2147483713;"]
     # nesting through attribute values / tag headers, far beyond the depth limit
     for dd in (60, 120, 400, 1000):
         out += ["<a " * dd + "/>" * dd, "<a b=" * dd + "x" + ">y</a>" * dd, "<a b=\"" * dd + "x" + "\">y</a>" * dd, "<a {{b|" * dd + "}}/>" * dd,
@@ -136,8 +148,10 @@ def run_stream(c, tier, seed, kinds, nontrivial_rule, n_quick=60000, n_thorough=
         stats["nontext_inputs"] += 1 if s.get("nontext", 0) > 0 else 0
         for k in kinds:
             for msg in fail.get(k, []):
-                c.fail("%s: %s" % (k, msg), {"text": text, "context": ctx, "skip_style_tags": skip, "kind": k,
-                                             "tokenizer": msg.split(" ")[0].rstrip(":")})
+                data = {"text": text, "context": ctx, "skip_style_tags": skip, "kind": k, "tokenizer": msg.split(" ")[0].rstrip(":")}
+                if "instance that had tokenized" in msg:
+                    data["history"] = s.get("history")
+                c.fail("%s: %s" % (k, msg), data)
     if builder_tie:
         _builder_tie(c, btie)
     c.cov["distinct_nontrivial"] = len(seen)
@@ -190,7 +204,12 @@ def replay_text(data, kinds):
         print(d)
         return 1
     tokharness.setup()
+    tokharness._REUSED.clear()
+    for h in d.get("history") or []:
+        for which in ("py", "c"):
+            tokharness.tokenize_reused(which, *h)
     r = tokharness.analyse(d["text"], d.get("context", 0), d.get("skip_style_tags", False))
+    print("history", d.get("history"))
     print("input", repr(d["text"]), "context", d.get("context"), "skip", d.get("skip_style_tags"))
     print("failures", r["fail"])
     return 1 if any(k in r["fail"] for k in kinds) else 0
